@@ -102,6 +102,11 @@ CLAIMED = {
             'The refusal catalogue (vf/model.py BadCatalogue, 76 rows: bad/duplicate/over-long name or missing parent in the first, second or third namespace, wrong entry type, missing Rock Ridge name, foreign-namespace arguments, depth, invalid boot parameters with and without a boot info table, duplicate catalog names per namespace, hybrid parameters, wrong object state ...) is enumerated; each refused call is placed at a drawn point of a generated history. The image written right after the refused call must equal the one written right before it, the final image must equal that of the twin run without the refused calls, later edits must behave identically and no write may fail. Evidence lists hits per catalogue row.',
             'A catalogue call that the library accepts is handed to C13 (counted). modify_file_in_place refusals are C17.',
             'DESIGN.md section 3, C14 and appendix A'),
+    'C17': ('exploration',
+            'property-based testing (Hypothesis): generated images and modification sequences; byte-diff confinement against regions located by independent readers, plus reopen and view comparison',
+            'The final image of a generated program is written to a read/write file object and opened from it; 1-3 modify_file_in_place calls pick a target (file / directory / missing path) and a new length class (0, 1, same, up to and beyond the sector boundary, one sector less). Refusals must leave the file byte-identical; an accepted call must only change the file\'s data sectors, the directory records / UDF file entry of its names and the size/date fields of the descriptors (regions located on the pre-image by the independent ISO9660/UDF readers), the result must be a valid image for the independent reader and reopen with every name of the content showing the new bytes and everything else unchanged.',
+            'BytesIO backing file. The modification date field is allowed to change along with the size fields (interpretation).',
+            'DESIGN.md section 3, C17'),
 }
 
 NOT_YET = 'check not built yet in this session (work in progress; see DESIGN.md section 9 for the order)'
